@@ -183,3 +183,20 @@ class LineMeter:
         finally:
             mon.set_events(TOOL_LINES, 0)
         return self.count, self.calls
+
+    def measure_with_memory(self, fn, *args, **kwargs):
+        """As measure(), plus the transient memory of the call: peak traced bytes above the level at
+        entry (tracemalloc, started and stopped around the call).  This is the simulator's second
+        meter: work done below the interpreter (a C-level copy of the whole candle list executes no
+        Python branch, but it allocates 8 bytes per candle)."""
+        import tracemalloc
+
+        tracemalloc.start()
+        try:
+            tracemalloc.reset_peak()
+            before, _ = tracemalloc.get_traced_memory()
+            lines, calls = self.measure(fn, *args, **kwargs)
+            _, peak = tracemalloc.get_traced_memory()
+        finally:
+            tracemalloc.stop()
+        return lines, calls, peak - before
